@@ -131,7 +131,8 @@ def run_big(lib, op, a, b, a_text, b_text, mode):
 def big_cases(rng, n):
     out = []
     for _ in range(n):
-        a = rng.choice([2 ** 53 + 1, 10 ** 16 + 1, 10 ** 17 + 7, rng.randint(2 ** 53, 10 ** 30), rng.randint(10 ** 15, 10 ** 19)])
+        a = rng.choice([2 ** 53 + 1, 10 ** 16 + 1, 10 ** 17 + 7, rng.randint(2 ** 53, 10 ** 30), rng.randint(10 ** 15, 10 ** 19),
+                        2 ** 128, rng.randint(10 ** 30, 10 ** 60), 10 ** 40 + 1])
         a = a if rng.random() < 0.7 else -a
         op = rng.choice(['+', '-', '+', '-', '*', '&'])
         if rng.random() < 0.15:
@@ -215,6 +216,27 @@ def main(tier, replay=None):
         part = obs[k:k + CH]
         v = core.validate_obs(run, 'Trace_C06', part, 'p%d' % (k // CH), consts)
         core.tally(run, part, v, 'c06', nontrivial=lambda o: o['in']['a']['t'] != o['in']['b']['t'] or o['in']['a']['t'] == 'arr')
+    # date-times with any millisecond part, moved by whole numbers of days: the result is that date-time (to the
+    # millisecond) on the other day - nothing of the time of day is dropped (Trace_Date, kind "shift": calendar arithmetic
+    # on (day, millisecond) pairs instead of rational serials)
+    import datetime as _dt
+    from . import dates as _dates
+    shifts = []
+    sp = lib.Parser()
+    for _ in range(300 if quick else 8000):
+        y, mo, dd = rng.randint(1901, 2150), rng.randint(1, 12), rng.randint(1, 28)
+        ms = rng.choice([750, 2, 999, 43200123, 86399990, rng.randint(2, 86399990), rng.randint(2, 86399990)])
+        n = rng.choice([rng.randint(-1000, 1000), 0, 1, -1, 365, 36525])
+        op = rng.choice(['+', '+', '-'])
+        sp.set_variable('va', _dt.datetime(y, mo, dd) + _dt.timedelta(milliseconds=ms))
+        sp.set_variable('vb', n)
+        f = '{va+vb,vb+va}' if op == '+' else '{va-vb,va-vb}'
+        shifts.append({'kind': 'shift', 'in': {'y': y, 'mo': mo, 'd': dd, 'ms': ms, 'n': n, 'op': op}, 'out': _dates.value_of(sp, f)})
+    for n, o in enumerate(shifts, 1):
+        o['id'] = n
+    v = core.validate_obs(run, 'Trace_Date', shifts, 'shift')
+    core.tally(run, shifts, v, 'c06-shift', key=lambda o: json.dumps(o['in'], sort_keys=True))
+    run.extra['date_time_shift_observations'] = len(shifts)
     # integers no double can hold, as numbers and as text: exact sums, differences and small multiples (BigNat)
     big = [run_big(lib, *c) for c in big_cases(rng, 600 if quick else 20000)]
     for n, o in enumerate(big, 1):
